@@ -398,6 +398,22 @@ def repl_scripts(rng, tier):
     for n in ([1, 2, 5, 20, 60] if tier == 'quick' else [1, 2, 5, 20, 60, 200, 600]):
         fs = [form(i) for i in range(n)]
         scripts.append(('\n'.join(f for f, _ in fs) + '\n', [e for _, e in fs]))
+    # forms that SIGNAL when evaluated, or end in a syntax error, written on one line or spanning lines, with ordinary forms
+    # after them: every later form is still evaluated exactly once, the error report is the same however the form is split
+    # (positions masked)
+    def eform(i):
+        k = rng.random()
+        sp = rng.choice([' ', '\n ', '\n\n  '])
+        if k < 0.3:
+            return (f'(car{sp}{i})', f'UNHANDLED ERROR:\n\nkind:\nwrong-argument-type\n\nsource:\ncar\n\nargument-value:\n{i}\n at: stdin:?\n\nexpected:\nconscell-type\n\nactual:\nnumber-type\n\n')
+        if k < 0.55:
+            return (f'(undefined-thing{sp}{i})', 'UNHANDLED ERROR:\n\nkind:\nunbound-symbol\n\nsource:\neval\n\nsymbol:\nundefined-thing\n at: stdin:?\n\n')
+        if k < 0.7:
+            return (f'(list {i}{sp}"a\\q")', "UNHANDLED ERROR:\n\nkind:\nsyntax-error\n\nmessage: \n'q' is not a valid escape character in a string literal\n at: stdin:?\n")
+        return form(i)
+    for n in ([3, 8, 30] if tier == 'quick' else [3, 8, 30, 30, 100]):
+        fs = [eform(i) for i in range(n)] + [form(n)]
+        scripts.append(('\n'.join(f for f, _ in fs) + '\n', [e.rstrip('\n') for _, e in fs]))
     # errors in the middle of a session: the session goes on
     scripts.append(('1\n(car 5)\n2\n(undefined)\n3\n', None))
     scripts.append(('(+ 1 2', None))           # incomplete at end of input
@@ -450,7 +466,7 @@ def c18_correspond(run, rng, tier):
             # independent oracle: every form evaluated exactly once, in order, one result per form, clean end
             body = out[len(LOADED):] if out.startswith(LOADED) else out
             got = [l for l in re.split(r'(?:>>> |\.\.\. )+', body.replace('\nBye!\n', '\n').replace('Bye!\n', '')) if l.strip() != '']
-            got = [g.rstrip('\n') for g in got]
+            got = [re.sub(r' at: stdin:\d+:\d+', ' at: stdin:?', g.rstrip('\n')) for g in got]
             if got != expected or rc != 0 or not out.endswith('Bye!\n'):
                 i = next((k for k in range(min(len(got), len(expected))) if got[k] != expected[k]), min(len(got), len(expected)))
                 f = {'script': text[:400] + (' …' if len(text) > 400 else ''), 'script_lines': text.count('\n'), 'chunking': cname, 'first_difference_at_form': i,
@@ -927,6 +943,18 @@ def shadow_oracle(sess, resp):
     return failures
 
 
+def deep_nest_programs():
+    """one value referred to by HUNDREDS of handles at the same time: an expression nested several hundred deep inside one function
+    body (every evaluator frame on the way down holds the same local environment), a parameter looked up again while the frames
+    unwind; and one object that is an element of a list hundreds of times"""
+    out = []
+    for d in (100, 254, 255, 256, 257, 300, 400):      # (twice d levels for the second family: below the depth limit)
+        out.append(("((lambda (x) " + "(add " * d + "x" + " x)" * d + ") 1)", str(d + 1)))
+        out.append(("((lambda (x y) " + "(car (list " * d + "x" + " y))" * d + ") 'deep (list 1 2))", 'deep'))
+    out.append(("((lambda (v) (length (foldl (lambda (acc i) (cons v acc)) nil (range 700)))) (list 'shared 1))", '700'))
+    return out
+
+
 def program_gc_sessions(rng, n, features=None):
     """evaluator programs under forced collection with poisoning: the handle audit and the heap invariants must hold afterwards"""
     sessions, progs = [], []
@@ -936,6 +964,9 @@ def program_gc_sessions(rng, n, features=None):
         progs.append(p)
         sched = rng.choice(['every:1', 'every:2', 'every:5', 'lcg:%d:64' % rng.randrange(1 << 30)])
         sessions.append(['new prelude', f'sched {sched}', 'poison 1', 'eval ' + hexs(p), 'sched natural', 'audit'])
+    for p, _ in deep_nest_programs():
+        progs.append(p)
+        sessions.append(['new prelude', f'sched {rng.choice(["every:1", "every:3", "every:7"])}', 'poison 1', 'eval ' + hexs(p), 'sched natural', 'audit'])
     return sessions, progs
 
 
@@ -964,6 +995,56 @@ def c01_correspond(run, rng, tier, symbol_heavy=False, which='C01'):
                     lines.append('h snap')
             lines += ['h collect', 'h snap', 'h inv']
             sessions.append(lines)
+        # MANY collections on one heap whose size stays put: a stable live set of a few hundred cells, and between two
+        # collections a few short-lived values in rotating slots (some survive one or two collections, some none); the heap
+        # is looked at after every one of the collections — "exactly the reachable cells are in use" must hold at the 700th
+        # collection as at the first
+        for base in ((300, 700), (120, 400)) if tier == 'quick' else ((300, 3000), (120, 1500), (1000, 1200)):
+            live, rounds = base
+            lines = ['new empty', 'sched natural', 'poison 1', 'h num 1 5']
+            filled = set()
+            for i in range(live):
+                lines.append('h cons 0 1 0' if i else 'h cons 0 1 _')
+            for i in range(rounds):
+                for _ in range(rng.randint(1, 4)):
+                    slot = rng.randint(2, 12)
+                    kind = rng.choice(['cons', 'num', 'cons2', 'drop'])
+                    if kind == 'drop' and slot not in filled:
+                        kind = 'num'
+                    if kind == 'cons2' and not filled:
+                        kind = 'cons'
+                    if kind == 'drop':
+                        filled.discard(slot)
+                        lines.append(f'h drop {slot}')
+                    else:
+                        lines.append({'cons': f'h cons {slot} 1 _', 'num': f'h num {slot} {i}', 'cons2': f'h cons {slot} {rng.choice(sorted(filled)) if filled else 1} 0'}[kind])
+                        filled.add(slot)
+                lines += ['h collect', 'h snap']
+            lines += ['h inv']
+            sessions.append(lines)
+        # the same with cells that were live at ONE collection long ago and have since held nothing but values that never
+        # survive a collection: whatever a collection remembers about a cell from an earlier collection must not matter
+        # hundreds of collections later (every residue of the collection count is passed)
+        for live, rounds, m, refresh in ((300, 620, 10, 10 ** 9), (150, 560, 6, 271)) if tier == 'quick' else ((300, 2100, 10, 10 ** 9), (150, 1600, 6, 271), (600, 1100, 25, 523)):
+            lines = ['new empty', 'sched natural', 'poison 1', 'h num 1 5']
+            for i in range(live):
+                lines.append('h cons 0 1 0' if i else 'h cons 0 1 _')
+            for i in range(rounds):
+                if i % refresh == 0:
+                    # these values are live at exactly one collection …
+                    for k in range(m):
+                        lines.append(f'h num {2 + k} {i}')
+                    lines += ['h collect', 'h snap']
+                    for k in range(m):
+                        lines.append(f'h drop {2 + k}')
+                    lines += ['h collect', 'h snap']
+                else:
+                    # … and from then on their cells hold garbage only
+                    for k in range(m):
+                        lines.append(f'h cons 2 1 _' if k % 2 else f'h num 2 {k}')
+                    lines += ['h drop 2', 'h collect', 'h snap']
+            lines += ['h inv']
+            sessions.append(lines)
     real, model = both(sessions)
     diffs = compare(sessions, real, model)
     failures = []
@@ -984,8 +1065,15 @@ def c01_correspond(run, rng, tier, symbol_heavy=False, which='C01'):
     failures += reload_failures(rseq, [r[:4] for r in preal[n_prog:]], rscheds)
     diffs += compare(psessions, preal, pmodel)
     leaks = 0
+    known = dict(deep_nest_programs())
     for p, r in zip(progs, preal):
         last = r[-1] if r else ''
+        if p in known:
+            res, _ = parse_eval(r[3] if len(r) > 3 else '')
+            if not res or (res[-1][0], res[-1][1]) != ('ok', known[p]):
+                failures.append({'expression': p, 'schedule': psessions[progs.index(p)][1], 'expected': known[p], 'real': str(res[-1][:2] if res else r[3:4])[:300],
+                                 'problem': 'a value held by several hundred handles at once was lost or altered by a collection'})
+                continue
         if not last.startswith('ok'):
             leaks += 1
             failures.append({'expression': p, 'problem': f'after evaluation under forced collections: {last[:300]}'})
@@ -1357,6 +1445,9 @@ DEEP_PATHS = {
     'macro-expansion': ("", None),          # built below: nested (when t (when t …))
     'trap-bodies': ("(defun deept (n) \"\" (if (= n 0) 0 (eval (trap (add 1 (deept (substract n 1))) (signal *trapped-signal*)))))", "(deept {n})"),
     'nested-eval': ("(defun deepe (n) \"\" (if (= n 0) 0 (add 1 (eval (list 'deepe (substract n 1))))))", "(deepe {n})"),
+    # the cycle goes through load-all (a module that loads itself, two modules that load each other): the depth is handed on
+    'load-all': ("(defun deepl (n) \"\" (if (= n 0) 0 (add 1 (block (load-all (print (list 'deepl (substract n 1))) \"deeplm\") 0))))", "(deepl {n})"),
+    'load-all-symbol-source': ("(defun deeps (n) \"\" (if (= n 0) 0 (add 1 (block (load-all (print (list 'deeps (substract n 1))) 'stdin) 0))))", "(deeps {n})"),
     'printing': ("", "(print (foldl (lambda (acc x) (list acc)) 1 (range {n})))"),
     'foldr': ("", "(foldr add 0 (range {n}))"),
 }
@@ -1911,13 +2002,13 @@ def c09_correspond(run, rng, tier):
     expected = dict(C09_EXPECTED)
     fill = [("(let (a 1 b 2) a)", '1'), ("(case ((= 1 2) 'x) (t 'y))", 'y'), ("(block 1 2)", '2'), ("(when t 3)", '3'), ("(and 1 2)", '2'), ("0", '0'), ("(or nil 4)", '4'),
             ("(try (throw 'kind 'k2) (catch k2 (lambda (e) 6)))", '6')]
-    for _ in range(150 if tier == 'quick' else 3000):
+    for _ in range(150 if tier == 'quick' else 1500):
         pre = [rng.choice(fill) for _ in range(rng.randint(0, 7))]
         tail, tv = rng.choice([("(try (throw 'kind 'boom) (catch boom (lambda (e) 7)) (catch-all (lambda (e) 8)))", '7'), ("(try (car 5) (catch boom (lambda (e) 7)) (catch-all (lambda (e) 8)))", '8'),
                                ("(try (signal 'plain) (catch-all (lambda (e) (when e 9))))", '9'), ("(let (r (try (throw 'kind 'boom) (catch boom (lambda (e) (and e 5))))) r)", '5')])
         x = '(list ' + ' '.join([f for f, _ in pre] + [tail]) + ')'
         expected[x] = '(' + ' '.join([v for _, v in pre] + [tv]) + ')'
-        for sc in ('every:37', 'every:3', rng.choice(['every:11', 'every:5', 'lcg:%d:48' % rng.randrange(1 << 30)])):
+        for sc in ('every:37', 'every:11', rng.choice(['every:23', 'every:7', 'lcg:%d:48' % rng.randrange(1 << 30)])):
             forms.append(x)
             scheds.append(sc)
     sessions = []
@@ -2224,6 +2315,11 @@ def c10_datum(rng, depth=0):
             return c10_string_source(''.join(rng.choice(pieces) for _ in range(rng.randint(0, 6))))
         s = rng.choice(['a', 'foo', 'list', 'nil', 't', 'quote', '+', '-', 'a-b', '+a', 'a1', 'a%', '*x*', 'λ', 'kind', '<=', '/=', '&', '.'])
         return s
+    if k > 0.88:
+        # quote FORMS as data: two-element lists headed by the symbol quote (also function / backquote-like heads), nested directly
+        head = rng.choice(['quote', 'quote', 'quote', 'list', 'lambda', 'macro'])
+        inner = c10_datum(rng, depth + 1) if rng.random() < 0.5 else '(quote ' + c10_datum(rng, depth + 2) + ')'
+        return f'({head} {inner})' if head != 'list' or not inner.startswith('%') else f'({head} {inner} 1)'
     n = rng.randint(0, 5)
     items = [c10_datum(rng, depth + 1) for _ in range(n)]
     body = items[1:] if items and items[0] == 'list' else items
@@ -2255,6 +2351,9 @@ def c10_correspond(run, rng, tier):
     # (ii) random data
     n = 1500 if tier == 'quick' else 40000
     data = [c10_datum(rng) for _ in range(n)]
+    data += ["(quote x)", "(quote (quote x))", "(quote (quote (quote x)))", "(a (quote (quote 7)) \"s\")", "((quote (quote ())))", "(quote)", "(quote a b)", "(quote quote)", "(quote (quote))",
+             "(quote (quote \"s\"))", "(quote %a)", "(quote (quote %'))", "(list (quote (quote a)) (quote (quote b)))"]
+    n = len(data)
     for i in range(0, n, 40):
         chunk = data[i:i + 40]
         forms = [f"(list (= (read-simple (print '{d})) '{d}) (= (print (read-simple (print '{d}))) (print '{d})) (. (read (print '{d}) 'stdin 1 1) 'rest))" for d in chunk]
@@ -2605,7 +2704,8 @@ def c02_programs(rng, n):
     return progs
 
 def c02_correspond(run, rng, tier):
-    progs = c02_programs(rng, 250 if tier == 'quick' else 4000)
+    known = dict(deep_nest_programs())
+    progs = c02_programs(rng, 250 if tier == 'quick' else 4000) + list(known)
     scheds = ['natural', 'every:1', 'every:7', 'lcg:%d:40' % rng.randrange(1 << 30)] + (['every:2', 'lcg:%d:128' % rng.randrange(1 << 30)] if tier == 'thorough' else [])
     sessions, meta = [], []
     for p in progs:
@@ -2629,6 +2729,13 @@ def c02_correspond(run, rng, tier):
                 failures.append({'expression': p, 'schedules': [base_sc, sc], 'problem': 'the same program gives different results under two collection schedules',
                                  'under_first': (base[3] if len(base) > 3 else str(base))[:300], 'under_second': (r[3] if len(r) > 3 else str(r))[:300]})
                 break
+        if p in known:
+            for sc, r in runs:
+                res, _ = parse_eval(r[3] if len(r) > 3 else '')
+                if not res or (res[-1][0], res[-1][1]) != ('ok', known[p]):
+                    failures.append({'expression': p, 'schedules': [sc], 'expected': known[p], 'real': str(res[-1][:2] if res else r[3:4])[:300],
+                                     'problem': 'a value held by several hundred handles at once was lost or altered'})
+                    break
         for sc, r in runs:
             if r and not r[-1].startswith('ok'):
                 failures.append({'expression': p, 'schedules': [sc], 'problem': 'handle audit / heap invariants after the run: ' + r[-1][:200]})
